@@ -445,8 +445,6 @@ class Module(HasAccessibles):
         if not self.export:  # do not export parameters of a module not exported
             accessible.export = False
         self.accessibles[name] = accessible
-        if accessible.export:
-            self.accessiblename2attr[accessible.export] = name
         if isinstance(accessible, Parameter):
             self.parameters[name] = accessible
         if isinstance(accessible, Command):
@@ -462,6 +460,9 @@ class Module(HasAccessibles):
                 self.errors.append(f"'{name}' has no property '{propname}'")
             except BadValueError as e:
                 self.errors.append(f'{name}.{propname}: {str(e)}')
+        # the wire name is known only now: the configuration may override 'export'
+        if accessible.export:
+            self.accessiblename2attr[accessible.export] = name
         if isinstance(accessible, Parameter):
             self._handle_writes(name, accessible)
 
